@@ -22,10 +22,30 @@ from engine.loader import AnalysisError
 P = "param.parameterized."
 
 
+def _record_hook():
+    """Hook for code that handles Watcher records as namedtuples (`w._replace(...)`, getattr with a default)."""
+    def hook(fn, args, kwargs):
+        if fn.endswith("._replace") and not args:
+            recv = getattr(hook.it, "current_receiver", None)
+            if isinstance(recv, Obj):
+                attrs = dict(recv.attrs)
+                attrs.update(kwargs)
+                # two records whose fields are equal compare equal: without their callers two dependency watchers of one
+                # method on one object are the same record
+                attrs["__eqclass__"] = "same-fields-without-fn" if "fn" in kwargs else recv.attrs.get("__eqclass__")
+                return Obj("record_from_" + recv.name, **attrs)
+        if fn == "getattr" and len(args) in (2, 3) and isinstance(args[0], Obj) and isinstance(args[1], str):
+            return args[0].attrs.get(args[1], args[2] if len(args) == 3 else None)
+        return NotImplemented
+    hook.needs_receiver = True
+    return hook
+
+
 def run_case(ctx, f, action, instance, what, names, present):
-    w1, w2 = Obj("w1", __eqclass__="w1"), Obj("w2", __eqclass__="w2")
-    twin = Obj("equal_twin", __eqclass__="same-fields")
-    w = Obj("the_watcher", __eqclass__="same-fields", parameter_names=tuple(names))
+    cb = Obj("user_callback")        # a plain callback: no method name attached
+    w1, w2 = Obj("w1", __eqclass__="w1", fn=Obj("callback_1")), Obj("w2", __eqclass__="w2", fn=Obj("callback_2"))
+    twin = Obj("equal_twin", __eqclass__="same-fields", fn=cb)
+    w = Obj("the_watcher", __eqclass__="same-fields", parameter_names=tuple(names), fn=cb)
     base = [w1, twin, w2] + ([w] if present else [])
     inst_tab = {"a": {"value": list(base)}}
     p_tabs = {k: Obj("P_" + k, watchers={"value": list(base)} if k == "a" else {}) for k in ("a", "b")}
@@ -34,7 +54,9 @@ def run_case(ctx, f, action, instance, what, names, present):
         p_tabs["b"].attrs["watchers"]["value"] = [w]
     inst = Obj("instance", _param__private=Obj("private", initialized=True, watchers=inst_tab)) if instance else None
     ns = Obj("ns", self=inst, cls=Obj("Cls", __name__="Cls", param=Obj("cls_param", __contains__=["a", "b"])), __getitem__=dict(p_tabs), __contains__=["a", "b"])
-    it = Interp(ctx.hier, dyn=P + "Parameters", inline=lambda m: True, strict_self_calls=True)
+    hook = _record_hook()
+    it = Interp(ctx.hier, dyn=P + "Parameters", inline=lambda m: True, call_hook=hook, strict_self_calls=True, inline_module_functions=True)
+    hook.it = it
     outs = it.run_all(f, {"self_": ns, "action": action, "watcher": w, "what": what})
     if len(outs) != 1 or outs[0].imprecise:
         raise AnalysisError("registration model: Parameters._register_watcher is not interpretable precisely (%s)" % (outs[0].notes[:2] if outs else "no outcome"))
@@ -86,8 +108,43 @@ def model(ctx):
     return n, problems
 
 
+def sibling_callers(ctx):
+    """One sub-object attached to TWO parents of the same class: both parents have a dependency watcher on it whose fields
+    are identical except for the caller (`fn` -- each caller is bound to its own parent; both carry the same method
+    name).  Removing the watcher of the parent that registered second must remove THAT watcher: the other parent keeps
+    firing on the sub-object's changes."""
+    f = ctx.repo.func(P + "Parameters._register_watcher")
+    fn_other = Obj("caller_bound_to_the_other_parent", _watcher_name="cb")
+    fn_mine = Obj("caller_bound_to_this_parent", _watcher_name="cb")
+    common = dict(inst=Obj("shared_sub_object"), cls=Obj("SubCls"), mode="args", onlychanged=True, parameter_names=("x",), what="value", queued=False, precedence=-1)
+    w_other = Obj("watcher_of_the_other_parent", fn=fn_other, __eqclass__="other", **common)
+    w_mine = Obj("watcher_of_this_parent", fn=fn_mine, __eqclass__="mine", **common)
+    lst = [w_other, w_mine]
+    inst_tab = {"x": {"value": lst}}
+    inst = Obj("instance", _param__private=Obj("private", initialized=True, watchers=inst_tab))
+    ns = Obj("ns", self=inst, cls=Obj("Cls", __name__="Cls", param=Obj("cls_param", __contains__=["x"])), __getitem__={"x": Obj("P_x", watchers={})}, __contains__=["x"])
+
+    hook = _record_hook()
+    it = Interp(ctx.hier, dyn=P + "Parameters", inline=lambda m: True, call_hook=hook, strict_self_calls=True, inline_module_functions=True)
+    hook.it = it
+    try:
+        outs = it.run_all(f, {"self_": ns, "action": "remove", "watcher": w_mine, "what": "value"})
+    except Unsupported as e:
+        raise AnalysisError("registration model: absint cannot interpret Parameters._register_watcher: %s" % e)
+    if len(outs) != 1 or outs[0].imprecise or outs[0].kind != "return":
+        raise AnalysisError("registration model: Parameters._register_watcher is not interpretable precisely (%s)" % (outs[0].notes[:2] if outs else "no outcome"))
+    left = inst_tab["x"]["value"]
+    if len(left) != 1 or left[0] is not w_other:
+        return ["removing the dependency watcher of one parent from a sub-object attached to two parents leaves %s registered, specification [the other parent's watcher]: the parent that still "
+                "holds the object stops firing on its changes, the parent that detached it keeps a live watcher (the watchers differ only in the caller they run)" % [x.name for x in left]]
+    return []
+
+
 def report(ctx, rule):
     n, problems = model(ctx)
+    sib = sibling_callers(ctx)
+    n += 1
+    problems = problems + [("removal of one of two dependency watchers that differ only in their caller", s_) for s_ in sib]
     f = ctx.repo.func(P + "Parameters._register_watcher")
     ctx.abstract_cases += n
     if not problems:
